@@ -4,6 +4,7 @@ import (
 	"fmt"
 	"go/token"
 	"go/types"
+	"strings"
 
 	"golang.org/x/tools/go/ssa"
 )
@@ -433,6 +434,9 @@ func (e *Exec) mapLookup(st *State, m Value, k Value, view *HeapView) (Term, Val
 		vk := "mapval:" + typeKey(mt) + l.Suffix
 		arr := e.mapArr(st, vk, ArrS(SInt, ArrS(ks, l.Sort)), view)
 		v.L[i] = Select(Select(arr, m.L[0]), kt)
+		if strings.HasSuffix(l.Suffix, "#off") {
+			v.L[i] = Zero // slices held in memory start at offset 0 (see loadPlace)
+		}
 	}
 	return okT, v
 }
